@@ -3,7 +3,7 @@ import AioslskVerif.Generated.SchedConstants
 # Upload scheduling model (C05)
 
 Transcribes `TransferManager.manage_transfers`, `_get_queued_transfers`, `_prioritize_uploads`,
-`get_free_upload_slots` (src/aioslsk/transfer/manager.py:384-412, 542-675) and the state changes of an
+`get_free_upload_slots` (src/aioslsk/transfer/manager.py:384-419, 549-582, 611-696) and the state changes of an
 upload (transfer/state.py) as seen by the scheduler.  The code modelled is the tree **with**
 `fixes/C06-single-flight.patch` (a transfer whose task slot still holds a running task is skipped by
 `manage_transfers`); for the upload side this only matters in the window the merged `cycle` step
@@ -26,7 +26,7 @@ bookkeeping is proved against (`C05_seen_is_last_reported`): the status the serv
 a user since the cycle that first saw an unfinished transfer of theirs.
 
 Merged step: `manage_transfers` creates an `initialize-upload` task for every selected upload while it
-is still `QUEUED`; the task's first step (`await transfer.state.initialize()`, manager.py:892, an
+is still `QUEUED`; the task's first step (`await transfer.state.initialize()`, manager.py:924, an
 uncontended lock) runs in the next loop iteration and makes it `INITIALIZING`.  The management job
 sleeps at least `MIN_TRANSFER_MGMT_INTERVAL` between two cycles (tasks.py:66-76), so no second cycle
 can see the selected uploads still `QUEUED`.  `cycle` therefore performs "select + initialise" in
@@ -75,7 +75,7 @@ def Xfer.processing (x : Xfer) : Bool :=
 def Xfer.finalized (x : Xfer) : Bool :=
   x.st == .complete || x.st == .aborted || x.st == .failed
 
-/-- member of `get_uploading()` (manager.py:405-412) -/
+/-- member of `get_uploading()` (manager.py:412-419) -/
 def Xfer.procUpload (x : Xfer) : Bool := x.dir == .upload && x.processing
 
 structure Sched where
@@ -85,7 +85,7 @@ structure Sched where
   store : Nat → Option Known := fun _ => none    -- UserManager._users: entries kept alive by a TrackedUser
   ref : Nat → Option Known := fun _ => none      -- specification (ghost): last report since tracking was due
   slots : Nat := 2                 -- settings.transfers.limits.upload_slots
-  cyclePending : Bool := false     -- the size-1 management queue holds a request (manager.py:113, 535-540)
+  cyclePending : Bool := false     -- the size-1 management queue holds a request (manager.py:117, 542-547)
 
 /-- the object `get_user_object` creates for a user it does not hold (user/manager.py:183-192) -/
 def Sched.fresh (s : Sched) (u : Nat) : Known := { status := .unknown, privileged := s.privSet u }
@@ -122,22 +122,22 @@ def Sched.track (s : Sched) : Sched :=
 /-- `len(get_uploading())` -/
 def Sched.procUploads (s : Sched) : Nat := s.xs.countP Xfer.procUpload
 
-/-- `get_free_upload_slots` : `max(0, upload_slots - len(uploading))` (manager.py:384-387) -/
+/-- `get_free_upload_slots` : `max(0, upload_slots - len(uploading))` (manager.py:391-394) -/
 def Sched.freeSlots (s : Sched) : Nat := s.slots - s.procUploads
 
-/-- `uploading_users` (manager.py:602-605) -/
+/-- `uploading_users` (manager.py:617-620) -/
 def Sched.busyUsers (s : Sched) : List Nat := (s.xs.filter Xfer.procUpload).map (·.user)
 
-/-- The loop of `_get_queued_transfers` (manager.py:610-631), upload branch.  `seen` is
+/-- The loop of `_get_queued_transfers` (manager.py:625-652), upload branch.  `seen` is
 `users_with_queued_upload`. -/
 def eligLoop (users : Nat → UserInfo) (busy : List Nat) : List Nat → List Xfer → List Xfer
   | _, [] => []
   | seen, x :: r =>
-    if (users x.user).status = .offline then eligLoop users busy seen r          -- 617-618
+    if (users x.user).status = .offline then eligLoop users busy seen r          -- 637-639
     else if x.dir = .upload then
-      if x.user ∈ busy then eligLoop users busy seen r                           -- 624-625
-      else if x.user ∈ seen then eligLoop users busy seen r                      -- 626-627
-      else if x.st = .queued then x :: eligLoop users busy (x.user :: seen) r    -- 629-631
+      if x.user ∈ busy then eligLoop users busy seen r                           -- 645-646
+      else if x.user ∈ seen then eligLoop users busy seen r                      -- 647-648
+      else if x.st = .queued then x :: eligLoop users busy (x.user :: seen) r    -- 650-652
       else eligLoop users busy seen r
     else eligLoop users busy seen r                                              -- downloads: other list
 
@@ -154,10 +154,10 @@ def W : Weights :=
   { online := Generated.Sched.wOnline, friend := Generated.Sched.wFriend,
     privileged := Generated.Sched.wPrivileged }
 
-/-- which statuses earn the "online" weight (manager.py:662), regenerated -/
+/-- which statuses earn the "online" weight (manager.py:683), regenerated -/
 def earnsOnline (st : UStatus) : Bool := Generated.Sched.onlineEarners.contains st.name
 
-/-- rank of one upload (manager.py:660-670) -/
+/-- rank of one upload (manager.py:681-693) -/
 def rankW (w : Weights) (i : UserInfo) : Nat :=
   (if earnsOnline i.status then w.online else 0) + (if i.friend then w.friend else 0)
     + (if i.privileged then w.privileged else 0)
@@ -172,19 +172,19 @@ def insAsc (key : Xfer → Nat) (a : Xfer) : List Xfer → List Xfer
   | b :: l => if key a ≤ key b then a :: b :: l else b :: insAsc key a l
 
 /-- stable ascending sort.  `list.sort(key=…)` is stable and a stable sort is determined by its
-input, so this is what `ranking.sort(key=itemgetter(0))` (manager.py:674) returns. -/
+input, so this is what `ranking.sort(key=itemgetter(0))` (manager.py:695) returns. -/
 def sortAsc (key : Xfer → Nat) : List Xfer → List Xfer
   | [] => []
   | a :: l => insAsc key a (sortAsc key l)
 
-/-- `_prioritize_uploads` (manager.py:649-675): stable ascending sort on the rank, then reversed. -/
+/-- `_prioritize_uploads` (manager.py:670-696): stable ascending sort on the rank, then reversed. -/
 def Sched.prioritize (s : Sched) (l : List Xfer) : List Xfer :=
   (sortAsc s.rankOf l).reverse
 
 /-- second component of `_get_queued_transfers()` -/
 def Sched.eligible (s : Sched) : List Xfer := s.prioritize s.candidates
 
-/-- `uploads[:free_upload_slots]` (manager.py:560) -/
+/-- `uploads[:free_upload_slots]` (manager.py:572) -/
 def Sched.select (s : Sched) : List Xfer := s.eligible.take s.freeSlots
 
 /-- `manage_transfers` (upload part): the selected uploads are initialised (merged step, see header); their
@@ -211,9 +211,9 @@ inductive Op
   | started (k : Nat)          -- initialisation got through: INITIALIZING → UPLOADING (state.py:228-235)
   | finish (k : Nat)           -- UPLOADING → COMPLETE (state.py:279-282)
   | failX (k : Nat)            -- INITIALIZING / UPLOADING → FAILED (reply disallowed, write error)
-  | backToQueue (k : Nat)      -- INITIALIZING → QUEUED (send failed, timeout, no file connection; manager.py:907-957)
-  | requeue (k : Nat)          -- peer sends PeerTransferQueue for a FAILED / COMPLETE upload (manager.py:1233-1234)
-  | apiQueue (k : Nat)         -- `TransferManager.queue` from a documented state (manager.py:273-303)
+  | backToQueue (k : Nat)      -- INITIALIZING → QUEUED (send failed, timeout, no file connection; manager.py:939-988)
+  | requeue (k : Nat)          -- peer sends PeerTransferQueue for a FAILED / COMPLETE upload (manager.py:1265-1266)
+  | apiQueue (k : Nat)         -- `TransferManager.queue` from a documented state (manager.py:277-307)
   | abort (k : Nat)            -- `TransferManager.abort`
   | setSlots (n : Nat)         -- settings.transfers.limits.upload_slots = n
   | friend (u : Nat) (b : Bool) -- settings.users.friends gains / loses `u` (a plain attribute: no cycle is requested)
